@@ -181,7 +181,7 @@ func checkC01(c *Ctx, r *Report) {
 				r2.Fail(key, instrPos(call.(ssa.Instruction)), "unexpected signature of newSecureSession", "")
 				continue
 			}
-			form := checkPeerIDForm(f, a[8])
+			form := checkPeerIDForm(f, call.(ssa.Instruction), a[8])
 			r2.Check(form != "" && isParamVar(c, a[3], "p"), key, instrPos(call.(ssa.Instruction)), 1, "form: "+form,
 				"checkPeerID argument is not one of the confirmed forms (true; p != \"\"; !disablePeerIDCheck; !disablePeerIDCheck && p != \"\") or the expected peer is not the caller's p", describeVal(a[8]))
 		}
@@ -330,28 +330,7 @@ func checkC01(c *Ctx, r *Report) {
 				ci := isResultOfCall(v, 0, "(core/peer.ID).MatchesPublicKey")
 				return ci != nil && isKey(strip(callArgs(ci)[1])) && isParamVar(c, callArgs(ci)[0], "remote")
 			}
-			emptyRemote := edgeCmp(func(b *ssa.BinOp) bool {
-				s, ok := constString(b.Y)
-				return ok && s == "" && (b.Op == token.NEQ || b.Op == token.EQL) && isParamVar(c, b.X, "remote")
-			}, false)
-			emptyRemoteEq := func(b *ssa.BasicBlock, s int) bool {
-				i := ifOf(b)
-				if i == nil {
-					return false
-				}
-				bo, ok := i.Cond.(*ssa.BinOp)
-				if !ok {
-					return false
-				}
-				if bo.Op == token.NEQ {
-					return emptyRemote(b, s)
-				}
-				if bo.Op == token.EQL {
-					str, ok := constString(bo.Y)
-					return ok && str == "" && isParamVar(c, bo.X, "remote") && s == 0
-				}
-				return false
-			}
+			emptyRemoteEq := eqEdge(func(v ssa.Value) bool { return isParamVar(c, v, "remote") }, func(v ssa.Value) bool { s, ok := constString(v); return ok && s == "" }, true)
 			r5.guard(cb, "send on keyCh", sends, "remote==\"\" || remote.MatchesPublicKey(pubKey)", anyEdge(emptyRemoteEq, edgeBool(matches, true)), nil)
 			r5.guard(cb, "send on keyCh", sends, "PubKeyFromCertChain err==nil", edgeNil(isCallResult(1, tlsP+".PubKeyFromCertChain"), true), nil)
 			for _, s := range sends {
@@ -726,59 +705,55 @@ func checkC01(c *Ctx, r *Report) {
 	}
 }
 
-// checkPeerIDForm classifies the checkPeerID argument.
-func checkPeerIDForm(f *ssa.Function, v ssa.Value) string {
-	pNeqEmpty := func(x ssa.Value) bool {
-		b, ok := x.(*ssa.BinOp)
-		if !ok || b.Op != token.NEQ {
-			return false
+// checkPeerIDForm decides what the checkPeerID argument means, as a function of the two things it may depend on:
+// whether the caller named an expected peer (p != "") and the transport's disablePeerIDCheck switch. The answer
+// is the confirmed form the value is equivalent to ("" when it is none of them, in particular when it can be
+// false although a peer is expected and the check is not disabled).
+func checkPeerIDForm(f *ssa.Function, site ssa.Instruction, v ssa.Value) string {
+	isEmptyStr := func(x ssa.Value) bool { s, ok := constString(x); return ok && s == "" }
+	isP := func(x ssa.Value) bool { p, ok := x.(*ssa.Parameter); return ok && paramIs(p, "p") }
+	atoms := []atomPred{
+		func(x ssa.Value) (bool, bool) { // p != ""
+			b, ok := x.(*ssa.BinOp)
+			if !ok || (b.Op != token.NEQ && b.Op != token.EQL) {
+				return false, false
+			}
+			if (isP(b.X) && isEmptyStr(b.Y)) || (isP(b.Y) && isEmptyStr(b.X)) {
+				return true, b.Op == token.NEQ
+			}
+			return false, false
+		},
+		func(x ssa.Value) (bool, bool) { // disablePeerIDCheck
+			fl, _ := loadOfField(x)
+			return fl != nil && fl.Name() == "disablePeerIDCheck", true
+		},
+	}
+	tab, ok := boolValueAt(f, site, v, atoms)
+	if !ok {
+		return ""
+	}
+	// assignment bits: 0 = p != "", 1 = disable
+	same := func(want func(pNonEmpty, disable bool) bool) bool {
+		for a := 0; a < 4; a++ {
+			w := 1
+			if want(a&1 != 0, a&2 != 0) {
+				w = 2
+			}
+			if tab[a] != w {
+				return false
+			}
 		}
-		s, okc := constString(b.Y)
-		p, okp := b.X.(*ssa.Parameter)
-		return okc && s == "" && okp && paramIs(p, "p")
+		return true
 	}
-	notDisable := func(x ssa.Value) bool {
-		base, neg := stripNot(x)
-		f, _ := loadOfField(base)
-		return neg && f != nil && f.Name() == "disablePeerIDCheck"
-	}
-	if b, ok := constBool(v); ok && b {
+	switch {
+	case same(func(p, d bool) bool { return true }):
 		return "true"
-	}
-	if pNeqEmpty(v) {
+	case same(func(p, d bool) bool { return p }):
 		return `p != ""`
-	}
-	if notDisable(v) {
+	case same(func(p, d bool) bool { return !d }):
 		return "!disablePeerIDCheck"
-	}
-	if phi, ok := v.(*ssa.Phi); ok {
-		okAll := true
-		sawCmp := false
-		for i, e := range phi.Edges {
-			if b, isC := constBool(e); isC && !b {
-				// must come from the `disablePeerIDCheck == true` edge
-				pred := phi.Block().Preds[i]
-				iff := ifOf(pred)
-				if iff == nil {
-					okAll = false
-					continue
-				}
-				base, _ := stripNot(iff.Cond)
-				fl, _ := loadOfField(base)
-				if fl == nil || fl.Name() != "disablePeerIDCheck" {
-					okAll = false
-				}
-				continue
-			}
-			if pNeqEmpty(e) {
-				sawCmp = true
-				continue
-			}
-			okAll = false
-		}
-		if okAll && sawCmp {
-			return `!disablePeerIDCheck && p != ""`
-		}
+	case same(func(p, d bool) bool { return !d && p }):
+		return `!disablePeerIDCheck && p != ""`
 	}
 	return ""
 }
